@@ -150,6 +150,8 @@ package main
 // What is reported: 0 <= read <= recv <= seq in every description sent out.
 //@ func (t *Topic) replyGetDesc(sess *Session, asUid types.Uid, asChan bool, opts *MsgGetOpts, msg *ClientComMessage) (err error)
 //@   requires [C09] t != nil && sess != nil && msg != nil
-//@   requires [C09] t.lastID >= 0 && ((asUid in t.perUser) ==> marksOK(t, asUid))
+// (read <= recv is deliberately NOT assumed of the cached marks here: the store can hold read > recv - see the known
+// finding on handleNoteBroadcast - and a reload copies stored marks into the cache; the report must be sane anyway)
+//@   requires [C09] t.lastID >= 0 && ((asUid in t.perUser) ==> 0 <= t.perUser[asUid].readID && t.perUser[asUid].readID <= t.lastID && 0 <= t.perUser[asUid].recvID && t.perUser[asUid].recvID <= t.lastID)
 //@   assert at call queueOut [C09] reported_marks: $1 != nil && $1.Meta != nil && $1.Meta.Desc != nil ==> 0 <= $1.Meta.Desc.ReadSeqId && $1.Meta.Desc.ReadSeqId <= $1.Meta.Desc.RecvSeqId && $1.Meta.Desc.RecvSeqId <= $1.Meta.Desc.SeqId
 //@   modifies *
